@@ -421,8 +421,11 @@ def check_nonmembers(ctx, rng, desc, spec, members, case, all_kinds=False):
 def check_random(ctx, rng, desc, spec, case):
   c = ctx.counters
   r = pyrandom.Random(rng.randrange(1 << 30))
-  for _ in range(ctx.params['draws']):
-    d = lib_call(ctx, 'random_dna', lambda: spec.random_dna(r), case)
+  for j in range(ctx.params['draws']):
+    # the first draw is taken unbound, so that a non-member is seen as such
+    # and not only through the binding check inside random_dna
+    kw = {'attach_spec': False} if j == 0 else {}
+    d = lib_call(ctx, 'random_dna', lambda: spec.random_dna(r, **kw), case)
     if isinstance(d, Raised):
       break
     c['random_dna_checks'] += 1
